@@ -144,9 +144,14 @@ class LineIndex(object):
         return i + 1, offset - self.starts[i] + 1
 
     def offset(self, line, col):
-        if line < 1 or line > len(self.starts):
+        """offset of (line, col), or None when that line has no such
+        column (a position past the end of its line designates nothing)"""
+        if line < 1 or line > len(self.starts) or col < 1:
             return None
-        return self.starts[line - 1] + col - 1
+        off = self.starts[line - 1] + col - 1
+        if line < len(self.starts) and off >= self.starts[line]:
+            return None
+        return off
 
     @property
     def nlines(self):
